@@ -2,7 +2,22 @@
 from vlib import core
 from props import graphcommon as gc
 LEVEL = 'proof'
+def litert_abort_finding(rep):
+    """the listed LiteRT-abort finding: its witness is replayed in a CHILD process (an abort would kill the check itself)"""
+    import json, subprocess, sys, os
+    k = rep.finding_for('C01/bounded.litert/allocate-and-invoke-without-abort')
+    if k is None: return
+    w = k['witness']
+    code = ("import json,sys; from replay import c08_models as cm; w=json.loads(sys.argv[1]); "
+            "r=cm.run_pipeline(w['recipe'], w['spec'], w.get('n_samples',1), w.get('seed',0), interp=True); print('RESULT', json.dumps(r))")
+    pr = subprocess.run([os.path.join(core.VERIF, 'vrun'), '-c', code, json.dumps(w)], capture_output=True, text=True, timeout=300)
+    aborted = pr.returncode < 0 or pr.returncode in (134, 139)
+    failed = aborted or ('RESULT' in pr.stdout and '"status": "ok"' not in pr.stdout)
+    rep.known_finding(k, failed)
+    rep.add_bounded('LiteRT allocate+invoke on the listed degenerate-range witness (child process)', 'one witness model, replayed every run', 1, 1 if failed else 0, note=f'child exit {pr.returncode}')
+
 def run(rep):
+    litert_abort_finding(rep)
     gc.small_carriers(rep, 'C01'); gc.insert_obligations(rep, 'C01'); gc.performer_obligations(rep, 'C01'); gc.names_obligations(rep, 'C01')
     gc.bounded_insert(rep); gc.e2e_standin(rep, 'C01', sampled3=(300 if rep.tier == 'thorough' else 0))
     gc.canaries(rep); gc.performer_canaries(rep)
